@@ -126,7 +126,13 @@ func (g *ArrayFieldGenerator) Generate(value client.NormalValue, f func(client.N
 type JSONFieldGenerator struct{}
 
 func (g *JSONFieldGenerator) Generate(value client.NormalValue, f func(client.NormalValue) error) error {
-	json, _ := value.JSON()
+	json, ok := value.JSON()
+	if !ok {
+		// The field is null or not set: there is no JSON value to traverse. Index the nil value
+		// itself, like any other nillable field, so that the document keeps an entry (which is
+		// what a `_eq: null` condition on the field looks up).
+		return f(value)
+	}
 	return client.TraverseJSON(json, func(value client.JSON) error {
 		val, err := client.NewNormalValue(value)
 		if err != nil {
